@@ -1,7 +1,10 @@
 /-
-  SlacModel.TimeRfc — `date_to_rfc3339` and `date_to_rfc2822` of src/stdlib/time.rs for a process whose local
-  time zone is UTC (the correspondence check runs with TZ=UTC), and the parsing functions `date_from_rfc2822/3339`
-  (chrono's parsers are in SlacModel.TimeParse: `rfc2822Utc`, `rfc3339Utc`), also for a UTC local zone.
+  SlacModel.TimeRfc — `date_to_rfc3339` and `date_to_rfc2822` of src/stdlib/time.rs and the parsing functions
+  `date_from_rfc2822/3339` (chrono's parsers are in SlacModel.TimeParse: `rfc2822Utc`, `rfc3339Utc`).
+  First part: for a process whose local time zone is UTC (`dateToRfc3339`, …; these are what `Registry.builtin` holds).
+  Second part: the same four builtins with the local zone as a parameter `z : Zone` (SlacModel.TimeZone):
+  `dateToRfc3339Z z`, `dateToRfc2822Z z`, `dateFromRfc3339Z z`, `dateFromRfc2822Z z`, and `zoned z name`.
+  The first part is the `Zone.utc` instance of the second (SlacProps.C16Zone).
 
   time.rs `naive_to_fixed`: `Local.from_local_datetime(&dt).single().map(fixed_offset)`.  For a zone without
   transitions (chrono offset/local/unix.rs + tz_info/timezone.rs `find_local_time_type_from_local`: no transitions
@@ -21,6 +24,7 @@
   A leap-second representation (nano ≥ 1e9) cannot come out of `from_timestamp_millis`.
 -/
 import SlacModel.Time
+import SlacModel.TimeZone
 set_option autoImplicit false
 namespace Slac
 namespace TimeRfc
@@ -104,6 +108,107 @@ def dateFromRfc2822 : List (Value N) → Option (Res N)
   | [_] => some (.error .wrongParameterType)
   | _ => some (.error (.wrongParameterCount 1))
 
+/-! ## The local time zone as a parameter
+
+  The functions above are the `Zone.utc` instances of the ones below (SlacProps.C16Zone: `dateToRfc3339Z_utc`, …).
+  `z : Zone` (SlacModel.TimeZone) stands for what chrono's `Local` derives from the host's `TZ` variable. -/
+
+/-- `OffsetFormat { precision: Minutes, colons, allow_zulu: false, padding: Pad::Zero }.format(off)`
+    (format/formatting.rs): sign, then |off| ROUNDED to the nearest minute (`(off + 30) / 60`) as `HH` `[:]` `MM`.
+    (|off| < 24 h, so hours ≤ 24 and both fields have two digits.) -/
+def fmtOffset (colon : Bool) (off : Int) : Str :=
+  let minutes := (off.natAbs + 30) / 60
+  (if off < 0 then '-' else '+') :: two (minutes / 60) ++ (if colon then ':' :: two (minutes % 60) else two (minutes % 60))
+
+/-- `DateTime<FixedOffset>::to_rfc3339` of the local date-time `t` at offset `off`: the LOCAL fields, then the offset -/
+def rfc3339At (off : Int) (t : DT) : Str :=
+  year3339 t.year ++ '-' :: two t.month ++ '-' :: two t.day ++ 'T' :: hms t ++ autoSi t.milli ++ fmtOffset true off
+
+/-- `DateTime<FixedOffset>::to_rfc2822` of the local date-time `t` at offset `off` (year within 0..=9999) -/
+def rfc2822At (off : Int) (t : DT) : Str :=
+  weekdayName (weekday t.days) ++ ',' :: ' ' :: Nat.toDigits 10 t.day ++ ' ' :: monthName t.month ++ ' ' ::
+    Time.pad 4 t.year.toNat ++ ' ' :: hms t ++ ' ' :: fmtOffset false off
+
+/-- the `NaiveDateTime` of a decoded date-time number -/
+def toNDT (t : DT) : NDT := ⟨t.days, ⟨t.ms / 1000, t.milli * 1000000⟩⟩
+
+/-- time.rs `naive_to_fixed`: `Local.from_local_datetime(&dt).single()` — the offset of the local reading when there is
+    exactly one.  chrono (offset/local/unix.rs `Cache::offset`, offset/mod.rs `from_local_datetime`): the zone's
+    `find_local_time_type_from_local`, then `FixedOffset::east_opt` (|off| < 24 h) and `local.checked_sub_offset(off)`
+    (the UTC date-time must be a `NaiveDateTime`) on every candidate; any failure gives `MappedLocalTime::None`.
+    `none` here is time.rs's `Err("invalid datetime value")`. -/
+def naiveToFixed (z : Zone) (t : DT) : Option Int :=
+  match z.localResult t.timestamp with
+  | .single off => if validOffset off && (subOffset (toNDT t) off).isSome then some off else none
+  | _ => none
+
+/-- `date_to_rfc3339` in the local zone `z` -/
+def dateToRfc3339Z (z : Zone) : List (Value N) → Res N
+  | [v] =>
+    match Time.decode v with
+    | .error e => .error e
+    | .ok t =>
+      match naiveToFixed z t with
+      | none => .error (custom "invalid datetime value")
+      | some off => .ok (.str (rfc3339At off t))
+  | _ => .error (.wrongParameterCount 1)
+
+/-- `date_to_rfc2822` in the local zone `z`: `naive_to_fixed` first, then the check of the (local) year -/
+def dateToRfc2822Z (z : Zone) : List (Value N) → Res N
+  | [v] =>
+    match Time.decode v with
+    | .error e => .error e
+    | .ok t =>
+      match naiveToFixed z t with
+      | none => .error (custom "invalid datetime value")
+      | some off =>
+        if 0 ≤ t.year ∧ t.year ≤ 9999 then .ok (.str (rfc2822At off t))
+        else .error (custom "year out of range for RFC 2822")
+  | _ => .error (.wrongParameterCount 1)
+
+/-- time.rs `fixed_to_naive`: `Local.from_utc_datetime(utc)`, then `naive_utc().checked_add_offset(offset)`.
+    The offset is looked up at the whole second of the UTC instant.  Outer `none`: `FixedOffset::east_opt` fails
+    (|off| ≥ 24 h) and chrono's `offset_from_utc_datetime(..).unwrap()` PANICS — outside the model; the inner error is
+    time.rs's `Err("datetime out of range")` (the local date-time is not a `NaiveDateTime`). -/
+def fixedToNaiveZ (z : Zone) (utc : NDT) : Option (Except NativeError NDT) :=
+  let off := z.offsetFromUtc utc.timestamp
+  if validOffset off then
+    some (match subOffset utc (-off) with
+          | some l => .ok l
+          | none => .error (custom "datetime out of range"))
+  else none
+
+def finishZ (z : Zone) (r : PRes NDT) : Option (Res N) :=
+  match r with
+  | .error e => some (.error (custom e.msg))
+  | .ok u =>
+    match fixedToNaiveZ z u with
+    | none => none
+    | some (.error e) => some (.error e)
+    | some (.ok l) => some (.ok (encodeMs l.millis))
+
+/-- `date_from_rfc3339` in the local zone `z` -/
+def dateFromRfc3339Z (z : Zone) : List (Value N) → Option (Res N)
+  | [.str s] => finishZ z (rfc3339Utc s)
+  | [_] => some (.error .wrongParameterType)
+  | _ => some (.error (.wrongParameterCount 1))
+
+/-- `date_from_rfc2822` in the local zone `z` -/
+def dateFromRfc2822Z (z : Zone) : List (Value N) → Option (Res N)
+  | [.str s] => finishZ z (rfc2822Utc s)
+  | [_] => some (.error .wrongParameterType)
+  | _ => some (.error (.wrongParameterCount 1))
+
+/-- the four builtins that consult the local zone, by name (the registry, `Registry.builtin`, holds their `Zone.utc`
+    instances); `none` for every other name -/
+def zoned (z : Zone) (name : String) : Option (List (Value N) → Option (Res N)) :=
+  match name with
+  | "date_to_rfc3339" => some fun ps => some (dateToRfc3339Z z ps)
+  | "date_to_rfc2822" => some fun ps => some (dateToRfc2822Z z ps)
+  | "date_from_rfc3339" => some (dateFromRfc3339Z z)
+  | "date_from_rfc2822" => some (dateFromRfc2822Z z)
+  | _ => none
+
 /-! ### TESTS (kernel-evaluated examples on the driver's doubles; expected texts per chrono 0.4.45) -/
 section Tests
 
@@ -142,6 +247,23 @@ example : err? (dateToRfc2822 [.bool true]) = some .wrongParameterType := by dec
 example : err? (dateToRfc3339 [.num 1e12]) = some (custom "datetime out of range") := by decide +kernel
 example : err? (dateToRfc3339 []) = some (.wrongParameterCount 1) := by decide +kernel
 example : err? (dateToRfc2822 [.num 0, .num 0]) = some (.wrongParameterCount 1) := by decide +kernel
+
+/-! zoned (expected values: the crate under `TZ='CET-1CEST,M3.5.0,M10.5.0/3'` / `TZ='EST5EDT,M3.2.0,M11.1.0'`) -/
+def okNum? : Option (Res Float) → Option Float
+  | some (.ok (.num x)) => some x
+  | _ => none
+example : okStr? (dateToRfc3339Z Zone.cet [.num 0]) = some "1970-01-01T00:00:00+01:00".toList := by decide +kernel
+example : okStr? (dateToRfc2822Z Zone.cet [.num 0]) = some "Thu, 1 Jan 1970 00:00:00 +0100".toList := by decide +kernel
+example : okStr? (dateToRfc3339Z Zone.est [.num 18809.5]) = some "2021-07-01T12:00:00-04:00".toList := by decide +kernel
+example : okStr? (dateToRfc2822Z Zone.est [.num 18809.5]) = some "Thu, 1 Jul 2021 12:00:00 -0400".toList := by decide +kernel
+/-- 2021-03-28 02:15 does not exist in CET, 2021-10-31 02:15 exists twice -/
+example : err? (dateToRfc3339Z Zone.cet [.num 18714.09375]) = some (custom "invalid datetime value") := by decide +kernel
+example : err? (dateToRfc2822Z Zone.cet [.num 18931.09375]) = some (custom "invalid datetime value") := by decide +kernel
+example : okStr? (dateToRfc3339Z Zone.cet [.num 18714.125]) = some "2021-03-28T03:00:00+02:00".toList := by decide +kernel
+/-- parsing converts to the local wall clock: 2021-07-01T12:00:00Z is 14:00 in CET, 08:00 in US Eastern -/
+example : okNum? (dateFromRfc3339Z Zone.cet [.str "2021-07-01T12:00:00Z".toList]) = some (18809 + 14 / 24) := by decide +kernel
+example : okNum? (dateFromRfc2822Z Zone.est [.str "Thu, 1 Jul 2021 12:00:00 +0000".toList]) = some (18809 + 8 / 24) := by decide +kernel
+example : (zoned (N := Float) Zone.cet "date_to_rfc3339").isSome ∧ (zoned (N := Float) Zone.cet "date_to_string").isNone := by decide
 
 end Tests
 
